@@ -392,7 +392,7 @@ def run_check(prop, tier, seed, only=None):
         pdir = outdir if pi == 0 else os.path.join(outdir, "part%d" % pi)
         os.makedirs(pdir, exist_ok=True)
         part_dirs.append(pdir)
-        env = {"VERIF_SEED": str(seed), "VERIF_TIER": tier, "VERIF_OUT": pdir}
+        env = {"VERIF_SEED": str(seed), "VERIF_TIER": tier, "VERIF_OUT": pdir, "VERIF_HOME": VERIF}
         env.update(cfg.get("env", {}))
         tmo = cfg.get("timeout", {}).get(tier, 900 if tier == "quick" else 7200)
         rc, hout = go_test(part["pkg"], part["test"], env, tmo, cwd=os.path.join(REPO, part.get("cwd", "")),
